@@ -124,3 +124,21 @@ Fixpoint cguard_sk (s : sk) : bool :=
                    end)
   end.
 Definition cousin_guard (t : tree) : bool := cguard_sk (sk_of t).
+
+(* The wider guard of C19_cousins_partial2: additionally
+   (c) a node may have any number of children with children as long as all its grandchildren are
+       leaves (the subtrees below it are compared on a single level, where the division by
+       1 - left_idx / right_idx is exact; the K1 miscount needs a second level). *)
+Definition flat2 (l : list sk) : bool := forallb (fun k => forallb sleaf (skids k)) l.
+
+Fixpoint cguard2_sk (s : sk) : bool :=
+  match s with
+  | Sk l => forallb cguard2_sk l
+            && (Nat.leb (nonleaves l) 1
+                || match l with
+                   | [a; b] => Nat.eqb (hR a) (sheight a) && Nat.eqb (hL b) (sheight b)
+                   | _ => false
+                   end
+                || flat2 l)
+  end.
+Definition cousin_guard2 (t : tree) : bool := cguard2_sk (sk_of t).
